@@ -277,6 +277,9 @@ func (s Shape) S(slices ...Slice) (retVal Shape, err error) {
 // Repeat returns the expected new shape given the repetition parameters.
 func (s Shape) Repeat(axis int, repeats ...int) (newShape Shape, finalRepeats []int, size int, err error) {
 	switch {
+	case axis < AllAxes:
+		err = errors.Errorf(invalidAxis, axis, s.Dims())
+		return
 	case axis == AllAxes:
 		size = s.TotalSize()
 		newShape = Shape{size}
